@@ -4,6 +4,10 @@ import json, os, subprocess
 V = os.path.dirname(os.path.dirname(os.path.abspath(__file__)))
 
 CHECKS = {
+ "C19": dict(level="exploration", design="DESIGN.md 3/C19",
+   technique="TLA+ specification TimeSpec (operator table over ordered operand kinds, exact nanosecond arithmetic on BitInt, proleptic Gregorian calendar, duration text grammar); code->spec record validation by TLC + design-level model check C19MC",
+   text="Every entry of the ordered kind-pair x operator table (192 entries, vacuity-guarded) is exercised with a full product of value pools (instants in several zones, durations incl. 0, +-1ns, int64 extremes, ints, floats, other) and, in the thorough tier, 180k seeded random operand tuples over the int64 nanosecond range; TLC judges each recorded result with TimeSpec (exact for integer entries, law-checked for divisions, acceptance/kind/sign for float entries), and checks the round-trip and ordering/hash laws and the calendar attributes.",
+   note="The operator table is covered exhaustively but values over the int64 nanosecond range are pools plus seeded samples, hence exploration. Results that do not fit int64 nanoseconds are recorded as notes, not violations (documentation silent). Trusted: TLC, BitInt (model-checked against native arithmetic), the zone database of the sandbox for named zones (offsets asserted only for UTC, Etc/GMT and numeric offsets)."),
  "C06": dict(level="model_checking", design="DESIGN.md 3/C06",
    technique="TLA+ Mutability protocol (spec/Mutability.tla) model-checked on a scenario machine (C06MC); scenarios replayed on the real interpreter (spec->code); step-limit cancellation at every step index (fault enumeration); hook traces of all runs and of the repository's test programs validated by TLC (C06Trace, code->spec)",
    text="TLC checks the iterator-counter protocol (counts exact, never negative, quiescent when the stack is empty) on every behaviour of the scenario machine (construct class x nesting x target x exit path x frozen) and emits each scenario with the required outcome of every mutation attempt. The harness renders each scenario for list, dict and set with every concrete construct of its class (for, four comprehension forms, sorted/min/max with key=, built-ins calling back through Hash/Truth/compare of host elements, *args, sequence assignment, for-unpacking, list/tuple/enumerate/reversed/zip/extend/sorted/len, the set-algebra methods, Go Iterate/Elements/Entries) and every would-change mutator (Go API and Starlark methods/syntax), checks that attempts during iteration fail and leave the collection unchanged, that the collection is mutable again as soon as the loop ends and after every exit path (exhaustion, break, return, error, error in nested call, host panic, cancellation), that the call-stack depth is restored and the thread reusable; it re-runs normally terminating scenarios under every step limit. All hook events (iterator begin/done with the implementation's counter value, freeze, frame push/pop, attempts) of these runs and of starlark/testdata are validated by TLC against the protocol.",
